@@ -6,7 +6,7 @@ import numpy as np
 from abmarl.tools import Box
 from abmarl.sim import is_agent
 
-from .sar_wrapper import SARWrapper
+from .sar_wrapper import SARWrapper, has_null_point
 
 
 def flatdim(space):
@@ -180,12 +180,12 @@ class FlattenWrapper(SARWrapper):
             self.agents[agent_id].observation_space = flatten_space(
                 wrapped_agent.observation_space
             )
-            if self.agents[agent_id].null_observation:
+            if has_null_point(self.agents[agent_id].null_observation):
                 self.agents[agent_id].null_observation = flatten(
                     self.sim.agents[agent_id].observation_space,
                     wrapped_agent.null_observation
                 )
-            if self.agents[agent_id].null_action:
+            if has_null_point(self.agents[agent_id].null_action):
                 self.agents[agent_id].null_action = flatten(
                     self.sim.agents[agent_id].action_space,
                     wrapped_agent.null_action
@@ -214,7 +214,7 @@ class FlattenActionWrapper(SARWrapper):
             if not is_agent(wrapped_agent): continue
             # Wrap the action spaces of the agents
             self.agents[agent_id].action_space = flatten_space(wrapped_agent.action_space)
-            if self.agents[agent_id].null_action:
+            if has_null_point(self.agents[agent_id].null_action):
                 self.agents[agent_id].null_action = flatten(
                     self.sim.agents[agent_id].action_space,
                     wrapped_agent.null_action
